@@ -72,14 +72,17 @@ CLAIMED["C02"] = dict(
     note=TB + " thr[L] = int(L*rate) computed in CPython. Two genuine defects found by this check were repaired in /repo (fix: commits 68eb3cf, 579ddcc; see known_findings.json).",
 )
 CLAIMED["C07"] = dict(
-    text="Theorems (coq/Properties/C07.v) on the model of kmer_heuristic.py + KmerFinder.kmers_present (window arithmetic + windowed multi-pattern occurrence) + the finder each adapter class builds: "
-    "the prefilter can only reject, so the property is equivalent to 'reported match implies prefilter passes'; comparers bypass it; the k-mer chunks partition the adapter prefix into max_errors+1 pieces; "
-    "short reads always reach the aligner of an anywhere adapter; completeness of the search tables for matches that cover the whole adapter (C07_whole_adapter_never_rejected: Front, RightmostFront, Back, Anywhere adapters, any error rate below 1, ASCII reads: pigeonhole over the edit script given by C01's distance theorem leaves one of the max_errors+1 chunks verbatim in the read, the chunk is kept by minimize with window (0, None), and the aligner's character comparison implies the k-mer finder's for every pair of ASCII characters and every wildcard flag set, by computation). PARTIAL: completeness for matches covering only a prefix/suffix of the adapter (back/front overlap search sets and their windows) and for the non-internal classes is not a theorem; it rests on the correspondence "
-    "(search tables as sets, kmers_present, prefiltered match_to: model = implementation) and on the with/without-prefilter oracle run on the implementation (random + exhaustive small scope).",
-    technique="Coq proof (structural lemmas; pigeonhole completeness for whole-adapter matches) + extracted-model differential correspondence (tables, kmers_present, match_to) + real-vs-mock-finder oracle on the implementation",
+    text="THEOREM C07_no_change (coq/Properties/C07.v, Proofs/KmerComplete.v + KmerOverlap.v) on the model of kmer_heuristic.py + KmerFinder.kmers_present (window arithmetic + windowed multi-pattern occurrence) + the finder each adapter class builds "
+    "(incl. the ShortReadKmerFinder wrapper): for every adapter class (all eight, with and without force_anywhere, indels on/off, wildcard flags), every threshold table with thr 0 = 0, steps of at most one and thr i < i "
+    "(= int(i*rate) for every rate below 1; asserted by the harness for every table it uses), ASCII adapter and read, min_overlap >= 1, adapter shorter than 100000: match_to_prefiltered = match_to. "
+    "Proof: C01's distance theorem gives an edit script for whatever the aligner reports; its placement is one of four shapes; error_lengths and the back/front overlap loops are characterised (every prefix length a has a set whose k-mers are the E+1 chunks of a piece "
+    "no longer than a with E >= thr a and a window >= a (+E with indels)); pigeonhole over the script (ed_split, ed_pigeon) leaves a chunk verbatim inside the window; remove_redundant_kmers only widens windows; a read inside the adapter takes the short-read bypass; "
+    "the aligner's character comparison implies the k-mer finder's for all ASCII pairs and flag sets (vm_compute over 127 x 127 x 8). Also: prefilter only rejects, comparers bypass it, chunks partition. "
+    "Tie to the code: correspondence (search tables as sets, kmers_present, prefiltered match_to: model = implementation) and the with/without-prefilter oracle run on the implementation (random + exhaustive small scope).",
+    technique="Coq proof (full statement: pigeonhole over edit scripts, characterisation of error_lengths / overlap search sets / minimize / windows) + extracted-model differential correspondence (tables, kmers_present, match_to) + real-vs-mock-finder oracle on the implementation",
     design="6/C07",
     note=TB + " The shift-and bit machinery of _kmer_finder.pyx below 'windowed multi-pattern occurrence' is not modelled; windows extending past the read end (out-of-bounds read in the compiled code, "
-    "can only turn no into yes) are clamped in the model and excluded from the kmers_present comparison. Two genuine defects were repaired in /repo (fix: commits 68eb3cf, 579ddcc).",
+    "can only turn no into yes) are clamped in the model and excluded from the kmers_present comparison. Non-ASCII bytes and rates >= 1 are outside the theorem. Two genuine defects were repaired in /repo (fix: commits 68eb3cf, 579ddcc).",
 )
 
 CLAIMED['C03'] = dict(
